@@ -52,6 +52,7 @@ func checkC17(c *Ctx, r *Report) {
 	borrow(c, r, c10R2, "C10.R2.sigwire-fill", "C17.R4.signer-canonical", 2, "Sign and Verify both put the canonical (lower-cased) signer name into the signed data", nil, "a key whose signer name has a capital letter signs data that Verify, which lower-cases, does not reproduce: generated and re-read keys do not verify their own signatures")
 	dsForEveryKey(c, r, "C17.R3.ds-for-every-key")
 	keyScratchSize(c, r, "C17.R8.key-scratch")
+	wildcardBelowRoot(c, r, "C17.R4.wildcard-below-root")
 }
 
 // c17R6: the RSA public-key decoder accepts every modulus size the generator can produce.
